@@ -277,8 +277,13 @@ bool cmb_event_execute_next(void)
         return false;
     }
 
-    /* Pull off the next event and decode it */
-    struct event_peek *tmp = (struct event_peek *)cmi_hashheap_dequeue(event_queue);
+    /*
+     * Pull off the next event and decode it. Take a copy: the location returned
+     * is inside the heap array, which moves if scheduling the wakeups below
+     * makes the event queue grow.
+     */
+    struct event_peek ev = *(struct event_peek *)cmi_hashheap_dequeue(event_queue);
+    struct event_peek *tmp = &ev;
 
     /* Advance clock to time of the next event */
     const double new_time = event_queue->heap[0].dsortkey;
